@@ -260,8 +260,43 @@ fn timed_expiry(rep: &Report) -> serde_json::Value {
     json!({"orders_judged": judged.into_inner(), "orders_not_judged_because_the_machine_was_too_slow": inconclusive.into_inner()})
 }
 
+/// A sender reuses its sequence id for its next message (OTP does, per process): after a message on id S has been
+/// delivered, a second message on S must be assembled like the first, in every arrival order, also when another
+/// sequence completed in between or fragments of S arrive again after its delivery.
+fn sequence_id_reuse(rep: &Report) {
+    let orders: [[u64; 3]; 6] = [[3, 2, 1], [3, 1, 2], [2, 3, 1], [2, 1, 3], [1, 3, 2], [1, 2, 3]];
+    let feed = |a: &mut FragmentAssembler, seq: u64, id: u64, tag: u8| -> Option<Vec<u8>> {
+        if id == 3 { a.start_fragment(seq, 3, None, vec![tag, 3]) } else { a.add_fragment(seq, id, vec![tag, id as u8]) }
+    };
+    for seq in [0u64, 7, u64::MAX] {
+        for first in &orders {
+            for second in &orders {
+                for between in 0..3u8 {
+                    rep.add("evaluations", 1);
+                    let mut a = FragmentAssembler::new();
+                    let r1: Vec<bool> = first.iter().map(|&id| feed(&mut a, seq, id, 0xA0).is_some()).collect();
+                    match between {
+                        1 => { let _ = a.start_fragment(seq ^ 1, 2, None, vec![9]); let _ = a.add_fragment(seq ^ 1, 1, vec![8]); } // another sequence completes in between
+                        2 => { let _ = a.cleanup_expired(); }
+                        _ => {}
+                    }
+                    let out2: Vec<Option<Vec<u8>>> = second.iter().map(|&id| feed(&mut a, seq, id, 0xB0)).collect();
+                    let r2: Vec<bool> = out2.iter().map(|o| o.is_some()).collect();
+                    let bytes_ok = out2[2].as_ref().map(|b| { let mut s = b.clone(); s.sort(); s == vec![1, 2, 3, 0xB0, 0xB0, 0xB0] }).unwrap_or(false);
+                    let between_label = ["nothing", "another sequence completes", "cleanup_expired"][between as usize];
+                    if r1 != vec![false, false, true] || r2 != vec![false, false, true] || !bytes_ok || a.pending_count() != 0 {
+                        rep.violation("second message on a reused sequence id is not assembled like the first", json!({"sequence_id": seq, "first_arrival_order": first, "second_arrival_order": second, "between": between_label,
+                            "first_completed_at": r1, "second_completed_at": r2, "second_bytes": out2[2], "pending_after": a.pending_count()}));
+                    }
+                }
+            }
+        }
+    }
+}
+
 pub fn run(rep: &Report) -> serde_json::Value {
     let thorough = rep.thorough();
+    sequence_id_reuse(rep);
     let timed = timed_expiry(rep);
     rep.set_extra("timed_expiry", timed);
     let mut scenarios: Vec<(String, Scenario)> = vec![];
